@@ -33,11 +33,11 @@ theorem protoHandle_reply {cfg : Cfg} {env : Env} {id : Nat} {ci ci' : ClientInf
     unfold httpRepl at hh
     split at hh
     · cases hh
-    · simp only [Except.ok.injEq, Prod.mk.injEq] at hh
-      obtain ⟨_, hh⟩ := hh
-      split at hh
-      · cases hh; exact ⟨env, rfl⟩
-      · cases hh
+    · split at hh
+      · simp only [Except.ok.injEq, Prod.mk.injEq, Option.some.injEq] at hh
+        exact ⟨env, hh.2.symm⟩
+      · simp only [Except.ok.injEq, Prod.mk.injEq] at hh
+        exact absurd hh.2 (by simp)
   have ssh : sshRepl d = .ok (some r) → IsSsh r := by
     intro hh
     unfold sshRepl at hh
@@ -349,19 +349,8 @@ theorem smb2_shape {r : Bytes} (h : IsSmb2 r) :
 
 theorem dnsReadQ_name {d acc : Bytes} {q : DnsQ} {rest : Bytes} (h : dnsReadQ acc d = some (q, rest)) :
     ∃ s, q.name = acc ++ s ∧ (s = [0] ∨ ∃ b t, s = b :: t ∧ b ≠ 0) := by
-  induction d generalizing acc with
-  | nil => simp [dnsReadQ] at h
-  | cons b t ih =>
-    unfold dnsReadQ at h
-    split at h
-    · rename_i hb
-      split at h
-      · cases h
-      · cases h
-        exact ⟨[0], rfl, .inl rfl⟩
-    · rename_i hb
-      obtain ⟨s, hs, _⟩ := ih h
-      refine ⟨b :: s, by rw [hs]; simp, .inr ⟨b, s, rfl, hb⟩⟩
+  obtain ⟨n, _, hraw, hn, _⟩ := DnsFix.dnsReadQ_some h
+  exact ⟨n, hn, hraw.head⟩
 
 theorem dnsReadQs_head {n : Nat} {d : Bytes} {q : DnsQ} {qs : List DnsQ} {rest : Bytes}
     (h : dnsReadQs n d = some (q :: qs, rest)) : ∃ r', dnsReadQ [] d = some (q, r') := by
